@@ -300,7 +300,8 @@ def run_world(case, sdk, checks):
         if name == "query":
             if k == "search":
                 check_search(w, i, t, op, o, checks)
-            elif k == "err" and "index" in checks and op.get("index") and op["index"] in t.indexes and op.get("scan") and not op.get("filter"):
+            elif k == "err" and "index" in checks and op.get("index") and op["index"] in t.indexes and op.get("scan") and not op.get("filter") \
+                    and not op.get("names") and not op.get("values"):
                 w.flag(i, "index-scan-error", "scan of an existing index failed: " + json.dumps(o)[:80])
             continue
         if name == "pages":
